@@ -13,6 +13,7 @@ import (
 	"path/filepath"
 	"strings"
 	"sync"
+	"sync/atomic"
 	"syscall"
 	"time"
 )
@@ -162,6 +163,7 @@ type CmdResult struct {
 	Stdout   string
 	Stderr   string
 	TimedOut bool
+	Flooded  bool // output exceeded MaxOutputBytes; the process was killed
 	Dur      time.Duration
 }
 
@@ -172,9 +174,12 @@ func Run(dir string, env []string, timeout time.Duration, argv ...string) CmdRes
 	cmd := exec.CommandContext(ctx, argv[0], argv[1:]...)
 	cmd.Dir = dir
 	cmd.Env = env
-	var so, se bytes.Buffer
-	cmd.Stdout = &so
-	cmd.Stderr = &se
+	// output is kept up to a cap; a process that floods its output (runaway recursion in generated code) is killed
+	var flooded int32
+	so := &capBuf{limit: MaxOutputBytes, onFull: func() { atomic.StoreInt32(&flooded, 1); cancel() }}
+	se := &capBuf{limit: MaxOutputBytes, onFull: func() { atomic.StoreInt32(&flooded, 1); cancel() }}
+	cmd.Stdout = so
+	cmd.Stderr = se
 	cmd.SysProcAttr = &syscall.SysProcAttr{Setpgid: true, Pdeathsig: syscall.SIGKILL}
 	cmd.Cancel = func() error {
 		return syscall.Kill(-cmd.Process.Pid, syscall.SIGKILL)
@@ -183,6 +188,11 @@ func Run(dir string, env []string, timeout time.Duration, argv ...string) CmdRes
 	t0 := time.Now()
 	err := cmd.Run()
 	r := CmdResult{Stdout: so.String(), Stderr: se.String(), Dur: time.Since(t0)}
+	if atomic.LoadInt32(&flooded) == 1 {
+		r.Flooded = true
+		r.Exit = -3
+		return r
+	}
 	if ctx.Err() == context.DeadlineExceeded {
 		r.TimedOut = true
 		r.Exit = -1
@@ -197,6 +207,37 @@ func Run(dir string, env []string, timeout time.Duration, argv ...string) CmdRes
 		}
 	}
 	return r
+}
+
+// MaxOutputBytes caps the captured stdout and stderr of any child process.
+const MaxOutputBytes = 96 << 20
+
+type capBuf struct {
+	mu     sync.Mutex
+	buf    bytes.Buffer
+	limit  int
+	full   bool
+	onFull func()
+}
+
+func (b *capBuf) Write(p []byte) (int, error) {
+	b.mu.Lock()
+	defer b.mu.Unlock()
+	if b.full {
+		return len(p), nil
+	}
+	if b.buf.Len()+len(p) > b.limit {
+		b.full = true
+		b.onFull()
+		return len(p), nil
+	}
+	return b.buf.Write(p)
+}
+
+func (b *capBuf) String() string {
+	b.mu.Lock()
+	defer b.mu.Unlock()
+	return b.buf.String()
 }
 
 // RunLimited is Run under an address-space limit (KiB): a runaway analysis dies
